@@ -55,6 +55,9 @@ type Case struct {
 	// Swap: page.vuego is replaced while the engine reads it (see swap_test.go); the renders
 	// made after that one are compared with a fresh engine over the new version.
 	Swap bool `json:"swap,omitempty"`
+	// Less: the schedule of less_test.go: requests for pages with page-local LESS served one
+	// after the other, by different goroutines, on ONE engine that has the LESS processor.
+	Less []string `json:"less,omitempty"`
 }
 
 // stuck is set once a concurrent phase did not finish: the blocked goroutines cannot be stopped
@@ -138,6 +141,12 @@ func callMode(p cat.Program, root vuego.Template, vue *vuego.Vue, entry string, 
 	case "assign":
 		// per-request values assigned on top of (possibly shared, read-only) site data
 		err = root.Load(page).Fill(data).Assign("reqid", "r"+suffix).Assign("unum", 1).Render(ctx, &buf)
+	case "view":
+		// the typed shim: bind file and data first, render later (a yield in between, as a
+		// handler that does other work before it writes the response)
+		t := vuego.View(root, page, data)
+		runtime.Gosched()
+		err = t.Render(ctx, &buf)
 	case "file":
 		err = root.New().Fill(data).RenderFile(ctx, &buf, page)
 	case "string":
@@ -289,6 +298,17 @@ func check(c Case) error {
 		run.Inflight(prop, "case", c)
 		before, _ := raceLogSize()
 		if err := checkSwap(c); err != nil {
+			return err
+		}
+		if after, text := raceLogSize(); after > before {
+			return fmt.Errorf("the race detector reported a data race during this execution:\n%s", raceSummary(text, before))
+		}
+		return nil
+	}
+	if len(c.Less) > 0 {
+		run.Inflight(prop, "case", c)
+		before, _ := raceLogSize()
+		if err := checkLess(c); err != nil {
 			return err
 		}
 		if after, text := raceLogSize(); after > before {
@@ -570,7 +590,7 @@ func classify(c Case) (bool, []string) {
 
 func replay(kind string, raw json.RawMessage) error { return run.Decode(raw, check) }
 
-var allEntries = []string{"load", "file", "string", "reader", "vue", "frag", "assign"}
+var allEntries = []string{"load", "file", "string", "reader", "vue", "frag", "assign", "view"}
 
 func TestProp(t *testing.T) {
 	rec := ev.New(prop)
@@ -635,6 +655,40 @@ func TestProp(t *testing.T) {
 			continue
 		}
 		run.Each(rec, "ptrshare", pc, true, []string{"shared-value-is-root-data-and-nested-pointer", fmt.Sprintf("n=%d", pc.N)}, check)
+	}
+	// requests for pages with page-local LESS on one engine with the LESS processor: every
+	// schedule of up to three requests (four in the thorough tier), both ways of registering
+	if run.First() {
+		var seqs [][]string
+		var grow func(prefix []string, d int)
+		grow = func(prefix []string, d int) {
+			if len(prefix) > 0 {
+				seqs = append(seqs, append([]string(nil), prefix...))
+			}
+			if d == 0 {
+				return
+			}
+			for _, f := range lessPages {
+				grow(append(prefix, f), d-1)
+			}
+		}
+		grow(nil, run.Pick(3, 4))
+		for _, e := range []string{"load", "vue"} {
+			for _, n := range []int{4, 16} {
+				var sq []string
+				for g := 0; g < n; g++ {
+					sq = append(sq, lessPages[g%len(lessPages)])
+				}
+				lc := Case{Prog: "less-pages", Less: sq, N: n, Reps: reps, Entries: []string{e}}
+				run.Each(rec, "less", lc, true, []string{"concurrent-requests-with-page-local-LESS-on-one-engine", "via=" + e}, check)
+			}
+		}
+		for _, sq := range seqs {
+			for _, e := range []string{"load", "vue"} {
+				lc := Case{Prog: "less-pages", Less: sq, N: 1, Reps: 1, Entries: []string{e}}
+				run.Each(rec, "less", lc, len(sq) > 1, []string{"requests-with-page-local-LESS-on-one-engine", "via=" + e}, check)
+			}
+		}
 	}
 	names := cat.Names()
 	run.Rapid(t, rec, "random", func(t *rapid.T) Case {
